@@ -554,8 +554,12 @@ type c49KeySpec struct {
 }
 
 func c49DrawKeySpec(rt *rapid.T, label string) c49KeySpec {
+	return c49DrawKeySpecOf(rt, label, []string{"RSA", "P-256", "P-256", "P-384", "P-384", "P-521", "P-521"})
+}
+
+func c49DrawKeySpecOf(rt *rapid.T, label string, types []string) c49KeySpec {
 	var s c49KeySpec
-	s.Typ = rapid.SampledFrom([]string{"RSA", "P-256", "P-256", "P-384", "P-384", "P-521", "P-521"}).Draw(rt, label+".typ")
+	s.Typ = rapid.SampledFrom(types).Draw(rt, label+".typ")
 	if s.Typ == "RSA" {
 		s.Slot = rapid.IntRange(0, len(c49RSAPEMs)-1).Draw(rt, label+".rsa")
 		s.Kind = rapid.SampledFrom([]string{"native", "native", "opaque", "msgsigner"}).Draw(rt, label+".kind")
@@ -634,6 +638,20 @@ type c49Rec struct {
 	body        []byte
 	outstanding map[string]bool // nonces issued and not yet presented, before this request
 	injected    bool            // answered with an injected badNonce problem
+	status      int             // HTTP status the CA answered with
+	refused     int             // != 0: the CA refused the request with this status (planned answer or CA rule)
+	onFile      *c49Key         // kid form: the key the CA had on file for that kid when the request arrived
+	caErr       string          // the CA's own verification of the request failed (it then answers 401)
+}
+
+// c49Acct is an account as the fake CA knows it: the account URL it issued
+// and the public key on file.  The key changes only when the CA itself
+// answers a keyChange request with success.
+type c49Acct struct {
+	loc         string
+	key         *c49Key
+	rolls       int
+	deactivated bool
 }
 
 type c49CaseState struct {
@@ -655,6 +673,60 @@ type c49CaseState struct {
 	recs        []c49Rec
 	inject      int // >0: answer the inject-th POST from now with badNonce
 	trouble     []string
+
+	// account database
+	accts        []*c49Acct
+	byKid        map[string]*c49Acct // account URL (and, for preset kids, the preset string) -> account
+	known        map[string]*c49Key  // RFC 7638 thumbprint -> harness key description (names for messages)
+	lastLocation string
+	// planned answer for the next POSTs of kind answerKind: "", "ok", "400",
+	// "403", "409", "500" (every attempt), "delay-ok", "badnonce-ok"
+	answer     string
+	answerKind string
+	delay      time.Duration
+}
+
+// keyFor describes a public key seen on the wire.
+func (cs *c49CaseState) keyFor(pub crypto.PublicKey) *c49Key {
+	if tp, err := refcbyte.JOSEThumbprint(pub); err == nil {
+		if k := cs.known[tp]; k != nil {
+			return k
+		}
+	}
+	k := &c49Key{pub: pub, kind: "seen-by-CA", name: "key-unknown-to-harness"}
+	switch pk := pub.(type) {
+	case *rsa.PublicKey:
+		k.typ, k.alg = "RSA", "RS256"
+	case *ecdsa.PublicKey:
+		for _, cv := range c49Curves {
+			if cv.c == pk.Curve {
+				k.typ, k.alg, k.curve = cv.name, cv.alg, cv
+			}
+		}
+	}
+	return k
+}
+
+func (cs *c49CaseState) acctByKey(pub crypto.PublicKey) *c49Acct {
+	if pub == nil {
+		return nil
+	}
+	for _, a := range cs.accts {
+		if refcbyte.JOSESamePublicKey(a.key.pub, pub) {
+			return a
+		}
+	}
+	return nil
+}
+
+func (cs *c49CaseState) addAcct(loc string, key *c49Key, aliases ...string) *c49Acct {
+	a := &c49Acct{loc: loc, key: key}
+	cs.accts = append(cs.accts, a)
+	cs.byKid[loc] = a
+	for _, al := range aliases {
+		cs.byKid[al] = a
+	}
+	return a
 }
 
 type c49Server struct {
@@ -755,37 +827,126 @@ func (s *c49Server) ServeHTTP(w http.ResponseWriter, r *http.Request) {
 		http.Error(w, "read", http.StatusBadRequest)
 		return
 	}
-	rec := c49Rec{kind: kind, requestURI: r.RequestURI, host: r.Host, ctype: r.Header.Get("Content-Type"), body: body, outstanding: map[string]bool{}}
+	rec := c49Rec{kind: kind, requestURI: r.RequestURI, host: r.Host, ctype: r.Header.Get("Content-Type"), body: body, outstanding: map[string]bool{}, status: http.StatusOK}
 	for n := range cs.outstanding {
 		rec.outstanding[n] = true
 	}
-	// Lenient routing-only look at the request (the oracle parses it again,
-	// strictly and independently, in the test goroutine).
-	var flat struct{ Protected, Payload string }
-	var hdr struct{ Nonce string }
-	var pl map[string]json.RawMessage
-	if json.Unmarshal(body, &flat) == nil {
-		if b, err := base64.RawURLEncoding.DecodeString(flat.Protected); err == nil {
-			json.Unmarshal(b, &hdr)
+	defer func() { cs.recs = append(cs.recs, rec) }()
+	// The CA authenticates the request with its own state: a kid is resolved
+	// to the key on file for that account, a jwk is taken from the request.
+	// (The oracle in the test goroutine parses and verifies the body again and
+	// produces the detailed verdict; the CA only needs this for its answers.)
+	var (
+		pl     map[string]json.RawMessage
+		acct   *c49Acct
+		reqPub crypto.PublicKey
+		nonce  string
+	)
+	m, perr := refcbyte.JOSEParse(body)
+	if perr != nil {
+		rec.caErr = perr.Error()
+		var flat struct{ Protected string }
+		var hdr struct{ Nonce string }
+		if json.Unmarshal(body, &flat) == nil {
+			if b, err := base64.RawURLEncoding.DecodeString(flat.Protected); err == nil {
+				json.Unmarshal(b, &hdr)
+			}
 		}
-		if b, err := base64.RawURLEncoding.DecodeString(flat.Payload); err == nil {
-			json.Unmarshal(b, &pl)
+		nonce = hdr.Nonce
+	} else {
+		nonce = m.Header.Nonce
+		json.Unmarshal(m.PayloadBytes, &pl)
+		if m.Header.HasKid {
+			if acct = cs.byKid[m.Header.Kid]; acct == nil {
+				rec.caErr = "no account for this kid"
+			} else {
+				rec.onFile, reqPub = acct.key, acct.key.pub
+				if err := refcbyte.JOSEVerify(m, reqPub); err != nil {
+					rec.caErr = err.Error()
+				}
+			}
+		} else if pub, err := refcbyte.JOSEParseJWK(m.Header.JWK); err != nil {
+			rec.caErr = err.Error()
+		} else if err := refcbyte.JOSEVerify(m, pub); err != nil {
+			rec.caErr = err.Error()
+		} else {
+			reqPub = pub
 		}
 	}
-	delete(cs.outstanding, hdr.Nonce)
+	delete(cs.outstanding, nonce)
 	w.Header().Set("Replay-Nonce", cs.newNonce())
+	problem := func(code int, typ string) {
+		rec.status = code
+		w.Header().Set("Content-Type", "application/problem+json")
+		w.WriteHeader(code)
+		fmt.Fprintf(w, `{"type":"urn:ietf:params:acme:error:%s","detail":"fake CA","status":%d}`, typ, code)
+	}
 	if cs.inject > 0 {
 		cs.inject--
 		if cs.inject == 0 {
 			rec.injected = true
-			cs.recs = append(cs.recs, rec)
-			w.Header().Set("Content-Type", "application/problem+json")
-			w.WriteHeader(http.StatusBadRequest)
-			io.WriteString(w, `{"type":"urn:ietf:params:acme:error:badNonce","detail":"injected","status":400}`)
+			problem(http.StatusBadRequest, "badNonce")
 			return
 		}
 	}
-	cs.recs = append(cs.recs, rec)
+	if rec.caErr != "" {
+		rec.refused = http.StatusUnauthorized
+		problem(http.StatusUnauthorized, "unauthorized")
+		return
+	}
+	// the key carried by a keyChange request's inner JWS, if it has one
+	innerKey := func() crypto.PublicKey {
+		im, err := refcbyte.JOSEParse(m.PayloadBytes)
+		if err != nil || !im.Header.HasJWK {
+			return nil
+		}
+		pub, err := refcbyte.JOSEParseJWK(im.Header.JWK)
+		if err != nil {
+			return nil
+		}
+		return pub
+	}
+	if kind == cs.answerKind {
+		switch cs.answer {
+		case "badnonce-ok":
+			cs.answer = "ok"
+			rec.injected = true
+			problem(http.StatusBadRequest, "badNonce")
+			return
+		case "delay-ok":
+			cs.answer = "ok"
+			time.Sleep(cs.delay)
+		case "400":
+			rec.refused = http.StatusBadRequest
+			problem(rec.refused, "malformed")
+			return
+		case "403":
+			rec.refused = http.StatusForbidden
+			problem(rec.refused, "unauthorized")
+			return
+		case "500":
+			rec.refused = http.StatusInternalServerError
+			problem(rec.refused, "serverInternal")
+			return
+		case "409":
+			// RFC 8555 §7.3.5: the new key already belongs to another
+			// account; nothing is changed, Location names that account.
+			rec.refused = http.StatusConflict
+			if pub := innerKey(); pub != nil {
+				other := cs.acctByKey(pub)
+				if other == nil || other == acct {
+					if loc, err := cs.mkURL("acct", ""); err == nil {
+						other = cs.addAcct(loc, cs.keyFor(pub))
+					}
+				}
+				if other != nil {
+					w.Header().Set("Location", other.loc)
+				}
+			}
+			problem(rec.refused, "conflict")
+			return
+		}
+	}
 	order := func(status string) map[string]any {
 		return map[string]any{
 			"status":         status,
@@ -803,19 +964,43 @@ func (s *c49Server) ServeHTTP(w http.ResponseWriter, r *http.Request) {
 		}
 	}
 	reply := func(code int, v any) {
+		rec.status = code
 		w.Header().Set("Content-Type", "application/json")
 		w.WriteHeader(code)
 		json.NewEncoder(w).Encode(v)
 	}
 	switch kind {
 	case "new-acct":
-		w.Header().Set("Location", cs.acctURL)
-		if _, only := pl["onlyReturnExisting"]; only {
+		_, only := pl["onlyReturnExisting"]
+		found := cs.acctByKey(reqPub)
+		switch {
+		case found != nil:
+			cs.lastLocation = found.loc
+			w.Header().Set("Location", found.loc)
 			reply(http.StatusOK, map[string]any{"status": "valid"})
-		} else {
+		case only:
+			rec.refused = http.StatusBadRequest
+			problem(rec.refused, "accountDoesNotExist")
+		default:
+			loc := cs.acctURL
+			if cs.byKid[loc] != nil {
+				var err error
+				if loc, err = cs.mkURL("acct", ""); err != nil {
+					cs.trouble = append(cs.trouble, err.Error())
+				}
+			}
+			cs.addAcct(loc, cs.keyFor(reqPub))
+			cs.lastLocation = loc
+			w.Header().Set("Location", loc)
 			reply(http.StatusCreated, map[string]any{"status": "valid"})
 		}
 	case "acct":
+		if acct != nil {
+			var st string
+			if json.Unmarshal(pl["status"], &st) == nil && st == "deactivated" {
+				acct.deactivated = true
+			}
+		}
 		reply(http.StatusOK, map[string]any{"status": "valid"})
 	case "new-order":
 		w.Header().Set("Location", cs.orderURL)
@@ -835,7 +1020,44 @@ func (s *c49Server) ServeHTTP(w http.ResponseWriter, r *http.Request) {
 	case "cert":
 		w.Header().Set("Content-Type", "application/pem-certificate-chain")
 		io.WriteString(w, "-----BEGIN CERTIFICATE-----\nAAECAwQFBgcICQ==\n-----END CERTIFICATE-----\n")
-	case "revoke", "key-change":
+	case "revoke":
+		w.WriteHeader(http.StatusOK)
+	case "key-change":
+		// RFC 8555 §7.3.5 server side: outer JWS authenticated under the key
+		// on file (done above), inner JWS carries the new key as jwk and
+		// verifies under it, account and oldKey name this account.
+		bad := ""
+		var newPub crypto.PublicKey
+		if acct == nil {
+			bad = "keyChange not in kid form"
+		} else if im, err := refcbyte.JOSEParse(m.PayloadBytes); err != nil {
+			bad = "inner JWS: " + err.Error()
+		} else if !im.Header.HasJWK {
+			bad = "inner JWS without jwk"
+		} else if newPub, err = refcbyte.JOSEParseJWK(im.Header.JWK); err != nil {
+			bad = "inner jwk: " + err.Error()
+		} else if err := refcbyte.JOSEVerify(im, newPub); err != nil {
+			bad = "inner JWS: " + err.Error()
+		} else {
+			var ip struct {
+				Account string          `json:"account"`
+				OldKey  json.RawMessage `json:"oldKey"`
+			}
+			if err := json.Unmarshal(im.PayloadBytes, &ip); err != nil {
+				bad = "inner payload: " + err.Error()
+			} else if cs.byKid[ip.Account] != acct {
+				bad = "inner account is not the requesting account"
+			} else if old, err := refcbyte.JOSEParseJWK(ip.OldKey); err != nil || !refcbyte.JOSESamePublicKey(old, acct.key.pub) {
+				bad = "oldKey is not the key on file"
+			}
+		}
+		if bad != "" {
+			rec.caErr, rec.refused = bad, http.StatusBadRequest
+			problem(rec.refused, "malformed")
+			return
+		}
+		acct.key = cs.keyFor(newPub)
+		acct.rolls++
 		w.WriteHeader(http.StatusOK)
 	default:
 		cs.trouble = append(cs.trouble, fmt.Sprintf("POST to unknown kind %q", kind))
@@ -863,6 +1085,8 @@ type c49Op struct {
 	Payload  string      `json:"payload,omitempty"`
 	Bundle   bool        `json:"bundle,omitempty"`
 	Inject   int         `json:"inject,omitempty"`
+	Answer   string      `json:"answer,omitempty"` // the CA's answer to the operation's own request: "" (ok), 400, 403, 409, 500, delay-ok, badnonce-ok
+	DelayMS  int         `json:"delay_ms,omitempty"`
 }
 
 type c49Plan struct {
@@ -876,6 +1100,7 @@ type c49Plan struct {
 	NewAuthz  bool       `json:"new_authz"`
 	NonceSeed uint64     `json:"nonce_seed"`
 	NonceLen  int        `json:"nonce_len"`
+	Profile   string     `json:"profile,omitempty"` // "" | rollover (histories dominated by key rollovers)
 	Ops       []c49Op    `json:"ops"`
 }
 
@@ -924,6 +1149,15 @@ func c49DrawOp(rt *rapid.T, i int, name string) c49Op {
 	if rapid.IntRange(0, 11).Draw(rt, l+"inject") == 0 {
 		op.Inject = 1
 	}
+	// the CA's answer to the operation's own request
+	if name == "AccountKeyRollover" {
+		op.Answer = rapid.SampledFrom([]string{"", "", "409", "409", "400", "403", "500", "delay-ok", "badnonce-ok"}).Draw(rt, l+"answer")
+	} else {
+		op.Answer = rapid.SampledFrom([]string{"", "", "", "", "", "", "", "", "", "", "400", "403", "500", "delay-ok", "badnonce-ok"}).Draw(rt, l+"answer")
+	}
+	if op.Answer == "delay-ok" {
+		op.DelayMS = rapid.IntRange(1, 20).Draw(rt, l+"delayms")
+	}
 	switch name {
 	case "Register", "RegisterEAB", "UpdateReg":
 		n := rapid.IntRange(0, 2).Draw(rt, l+"ncontacts")
@@ -958,10 +1192,20 @@ func c49DrawOp(rt *rapid.T, i int, name string) c49Op {
 			op.Key = &ks
 		}
 	case "AccountKeyRollover":
-		ks := c49DrawKeySpec(rt, l+"newkey")
+		// RSA and EC in both directions
+		ks := c49DrawKeySpecOf(rt, l+"newkey", []string{"RSA", "RSA", "P-256", "P-384", "P-521", "P-256"})
 		op.Key = &ks
 	}
 	return op
+}
+
+// operations of the rollover-heavy histories: rollovers interleaved with
+// requests in kid form (which the CA authenticates under the key on file)
+// and jwk form
+var c49RolloverOpNames = []string{
+	"AccountKeyRollover", "AccountKeyRollover", "AccountKeyRollover", "AccountKeyRollover",
+	"GetOrder", "UpdateReg", "AuthorizeOrder", "DeactivateReg", "RevokeCert", "GetAuthorization", "Accept",
+	"GetReg", "Register", "RevokeCertWithCertKey",
 }
 
 func c49DrawPlan(rt *rapid.T) c49Plan {
@@ -979,12 +1223,20 @@ func c49DrawPlan(rt *rapid.T) c49Plan {
 	p.NonceSeed = rapid.Uint64().Draw(rt, "nonceseed")
 	p.NonceLen = rapid.SampledFrom([]int{1, 2, 8, 16, 22, 22, 32, 43, 43, 64, 128, 300}).Draw(rt, "noncelen")
 	nops := rapid.IntRange(1, 6).Draw(rt, "nops")
+	names := c49OpNames
+	if rapid.IntRange(0, 2).Draw(rt, "profile") == 0 {
+		p.Profile, names = "rollover", c49RolloverOpNames
+		p.Key = c49DrawKeySpecOf(rt, "key2", []string{"RSA", "RSA", "P-256", "P-384", "P-521", "P-256"})
+		nops = rapid.IntRange(3, 9).Draw(rt, "nops2")
+	}
 	if p.KidMode == "register" {
 		name := rapid.SampledFrom([]string{"Register", "RegisterEAB"}).Draw(rt, "firstop")
-		p.Ops = append(p.Ops, c49DrawOp(rt, 0, name))
+		op := c49DrawOp(rt, 0, name)
+		op.Answer, op.DelayMS = "", 0 // without an account nothing below is in kid form
+		p.Ops = append(p.Ops, op)
 	}
 	for i := 1; i <= nops; i++ {
-		name := rapid.SampledFrom(c49OpNames).Draw(rt, fmt.Sprintf("op%d.name", i))
+		name := rapid.SampledFrom(names).Draw(rt, fmt.Sprintf("op%d.name", i))
 		if p.KidMode == "preset-wild" && (name == "UpdateReg" || name == "DeactivateReg") {
 			name = "GetOrder" // these POST to the kid URL itself
 		}
@@ -1020,6 +1272,7 @@ type c49Expect struct {
 	key     *c49Key
 	kid     string
 	pclass  string
+	prelude bool                                   // the account lookup the client makes on its own
 	payload func(m *refcbyte.JOSEMessage) *c49Fail // nil: payload must be a JSON value
 }
 
@@ -1029,6 +1282,8 @@ type c49Runner struct {
 	hc      *http.Client
 	trouble string // set by harness-side signers
 	capture *[]byte
+	caseTag string  // "<CA answer>|<outcome of the last rollover>" for the evidence key
+	onFile  *c49Key // key on file at the CA for the request being verified (kid form)
 	sampled bool
 	sample  map[string]any
 }
@@ -1099,6 +1354,9 @@ func (r *c49Runner) verifyJWS(op string, body []byte, e c49Expect, outstanding m
 	}
 	h := m.Header
 	if h.Alg != e.key.alg {
+		if e.form == "kid" && !inner {
+			return nil, c49Violation("%s: alg %q but the key on file at the CA for kid %q is %s (alg %s); header=%s", where, h.Alg, e.kid, e.key.name, e.key.alg, m.HeaderJSON)
+		}
 		return nil, c49Violation("%s: alg %q for a %s key (want %s); header=%s", where, h.Alg, e.key.name, e.key.alg, m.HeaderJSON)
 	}
 	if !h.HasURL || h.URL != e.url {
@@ -1142,6 +1400,9 @@ func (r *c49Runner) verifyJWS(op string, body []byte, e c49Expect, outstanding m
 		if r.trouble != "" {
 			return nil, c49Trouble("harness signer: %s", r.trouble)
 		}
+		if e.form == "kid" {
+			return nil, c49Violation("%s: signature does not verify under the key the CA has on file for this kid (%s, signer %s): %v; protected=%s signature=%s", where, e.key.name, e.key.kind, err, m.HeaderJSON, m.Signature)
+		}
 		return nil, c49Violation("%s: signature does not verify under the independent verifier (%s key, signer %s): %v; protected=%s signature=%s", where, e.key.name, e.key.kind, err, m.HeaderJSON, m.Signature)
 	}
 	if e.payload != nil {
@@ -1168,8 +1429,11 @@ func (r *c49Runner) verifyJWS(op string, body []byte, e c49Expect, outstanding m
 			classes = append(classes, "jwk:"+e.key.typ+":two-leading-zeros")
 		}
 	}
-	nontrivial := siglz != "" || coordlz != "" || e.key.kind != "native" || inner
-	key := strings.Join([]string{op, e.key.name, e.key.kind, e.form, "sig" + siglz, "xy" + coordlz, e.pclass, fmt.Sprint(inner)}, "|")
+	nontrivial := siglz != "" || coordlz != "" || e.key.kind != "native" || inner || (r.caseTag != "" && r.caseTag != "ok|none")
+	key := strings.Join([]string{op, e.key.name, e.key.kind, e.form, "sig" + siglz, "xy" + coordlz, e.pclass, fmt.Sprint(inner), r.caseTag}, "|")
+	if i := strings.IndexByte(r.caseTag, '|'); i >= 0 && r.caseTag[i+1:] != "none" && !inner {
+		classes = append(classes, "history:"+e.form+"-after-rollover-"+r.caseTag[i+1:])
+	}
 	r.c.Case(nontrivial, key, classes...)
 	if !r.sampled && r.sample != nil {
 		r.sampled = true
@@ -1295,6 +1559,7 @@ func (r *c49Runner) run(p c49Plan) *c49Fail {
 	cs := &c49CaseState{
 		id: fmt.Sprintf("k%d", s.n), base: s.srv.URL, urlByWire: map[string]string{}, urls: map[string]string{},
 		terms: p.Terms, dirNonce: p.DirNonce, nonceSeed: p.NonceSeed, nonceLen: p.NonceLen, outstanding: map[string]bool{},
+		byKid: map[string]*c49Acct{}, known: map[string]*c49Key{},
 	}
 	s.cs = cs
 	s.mu.Unlock()
@@ -1332,11 +1597,27 @@ func (r *c49Runner) run(p c49Plan) *c49Fail {
 	}
 	regURL := cs.urls["newAccount"]
 
-	acct, err := c49BuildKey(p.Key, &r.trouble)
-	if err != nil {
-		return c49Trouble("account key: %v", err)
+	// every key the harness builds is made known to the fake CA's name table
+	// (names only: what is on file for an account is decided by the CA)
+	build := func(spec c49KeySpec, what string) (*c49Key, *c49Fail) {
+		k, err := c49BuildKey(spec, &r.trouble)
+		if err != nil {
+			return nil, c49Trouble("%s: %v", what, err)
+		}
+		if f := r.checkThumbprint(k); f != nil {
+			return nil, f
+		}
+		tp, err := refcbyte.JOSEThumbprint(k.pub)
+		if err != nil {
+			return nil, c49Trouble("%s: %v", what, err)
+		}
+		s.mu.Lock()
+		cs.known[tp] = k
+		s.mu.Unlock()
+		return k, nil
 	}
-	if f := r.checkThumbprint(acct); f != nil {
+	acct, f := build(p.Key, "account key")
+	if f != nil {
 		return f
 	}
 	cl := &acme.Client{
@@ -1350,23 +1631,42 @@ func (r *c49Runner) run(p c49Plan) *c49Fail {
 	}
 	kid := ""
 	kidKnown := false
+	s.mu.Lock()
 	switch p.KidMode {
 	case "preset-url":
+		// the account exists at the CA under this URL with the client's key
+		cs.addAcct(cs.acctURL, acct)
 		kid, kidKnown = cs.acctURL, true
 		cl.KID = acme.KeyID(kid)
 	case "preset-wild":
+		cs.addAcct(cs.acctURL, acct, p.Kid)
 		kid, kidKnown = p.Kid, true
 		cl.KID = acme.KeyID(kid)
+	case "lazy":
+		// registered earlier; this Client has to look its account URL up
+		cs.addAcct(cs.acctURL, acct)
+		kid = cs.acctURL
 	default:
-		kid = cs.acctURL // what the CA will answer
+		kid = cs.acctURL // what the CA will answer to the first newAccount
 	}
+	s.mu.Unlock()
 
+	ops := p.Ops
 	for _, op := range p.Ops {
+		if op.Name == "AccountKeyRollover" {
+			// the history ends with a request in kid form, so that the state
+			// after the last rollover is observed
+			ops = append(append([]c49Op{}, p.Ops...), c49Op{Name: "GetOrder", Suffix: 1})
+			break
+		}
+	}
+	lastRoll, rolls := "none", 0
+	for opIdx, op := range ops {
 		var exp []c49Expect
 		// requests that need the account URL first look it up (jwk form, onlyReturnExisting)
 		prelude := func() {
 			if !kidKnown {
-				exp = append(exp, c49Expect{kind: "new-acct", url: regURL, form: "jwk", key: acct, pclass: "onlyReturnExisting",
+				exp = append(exp, c49Expect{kind: "new-acct", url: regURL, form: "jwk", key: acct, pclass: "onlyReturnExisting", prelude: true,
 					payload: func(m *refcbyte.JOSEMessage) *c49Fail {
 						obj, f := c49PayloadObject(m, "account lookup")
 						if f != nil {
@@ -1377,9 +1677,11 @@ func (r *c49Runner) run(p c49Plan) *c49Fail {
 				kidKnown = true
 			}
 		}
+		// kid form: the verification key is not the client's but the one the
+		// CA has on file for the kid (filled in from the CA's record)
 		kidReq := func(kind, u, pclass string, payload func(m *refcbyte.JOSEMessage) *c49Fail) {
 			prelude()
-			exp = append(exp, c49Expect{kind: kind, url: u, form: "kid", key: acct, kid: kid, pclass: pclass, payload: payload})
+			exp = append(exp, c49Expect{kind: kind, url: u, form: "kid", kid: kid, pclass: pclass, payload: payload})
 		}
 		ctx, cancel := context.WithTimeout(context.Background(), 30*time.Second)
 		var call func() error
@@ -1540,12 +1842,8 @@ func (r *c49Runner) run(p c49Plan) *c49Fail {
 				kidReq("revoke", cs.urls["revokeCert"], "revoke", check)
 				call = func() error { return cl.RevokeCert(ctx, nil, cert, acme.CRLReasonCode(reason)) }
 			} else {
-				ck, err := c49BuildKey(*op.Key, &r.trouble)
-				if err != nil {
-					cancel()
-					return c49Trouble("certificate key: %v", err)
-				}
-				if f := r.checkThumbprint(ck); f != nil {
+				ck, f := build(*op.Key, "certificate key")
+				if f != nil {
 					cancel()
 					return f
 				}
@@ -1553,16 +1851,11 @@ func (r *c49Runner) run(p c49Plan) *c49Fail {
 				call = func() error { return cl.RevokeCert(ctx, ck.signer, cert, acme.CRLReasonCode(reason)) }
 			}
 		case "AccountKeyRollover":
-			nk, err := c49BuildKey(*op.Key, &r.trouble)
-			if err != nil {
-				cancel()
-				return c49Trouble("rollover key: %v", err)
-			}
-			if f := r.checkThumbprint(nk); f != nil {
+			nk, f := build(*op.Key, "rollover key")
+			if f != nil {
 				cancel()
 				return f
 			}
-			old := acct
 			kcURL := cs.urls["keyChange"]
 			kidReq("key-change", kcURL, "key-change", func(m *refcbyte.JOSEMessage) *c49Fail {
 				innerExp := c49Expect{kind: "key-change", url: kcURL, form: "jwk", key: nk, pclass: "key-change-inner",
@@ -1582,8 +1875,8 @@ func (r *c49Runner) run(p c49Plan) *c49Fail {
 						if err != nil {
 							return c49Violation("key-change oldKey rejected: %v; %s", err, raw)
 						}
-						if !refcbyte.JOSESamePublicKey(pub, old.pub) {
-							return c49Violation("key-change oldKey %s is not the old account key %s", raw, old.name)
+						if r.onFile == nil || !refcbyte.JOSESamePublicKey(pub, r.onFile.pub) {
+							return c49Violation("key-change oldKey %s is not the key the CA has on file for account %q", raw, kid)
 						}
 						return nil
 					}}
@@ -1608,11 +1901,20 @@ func (r *c49Runner) run(p c49Plan) *c49Fail {
 			cancel()
 			return c49Trouble("%v", err)
 		}
-		if op.Inject > 0 {
-			s.mu.Lock()
-			cs.inject = op.Inject
-			s.mu.Unlock()
+		isRegister := op.Name == "Register" || op.Name == "RegisterEAB"
+		answer := op.Answer
+		if answer == "" || (answer == "409" && op.Name != "AccountKeyRollover") || (isRegister && p.KidMode == "register" && opIdx == 0) {
+			answer = "ok"
 		}
+		refusedPlan := answer == "400" || answer == "403" || answer == "409" || answer == "500"
+		mainIdx := 0
+		for mainIdx < len(exp)-1 && exp[mainIdx].prelude {
+			mainIdx++
+		}
+		s.mu.Lock()
+		cs.inject = op.Inject
+		cs.answer, cs.answerKind, cs.delay = answer, exp[mainIdx].kind, time.Duration(op.DelayMS)*time.Millisecond
+		s.mu.Unlock()
 		opErr := func() (err error) {
 			defer func() {
 				if rec := recover(); rec != nil {
@@ -1626,7 +1928,9 @@ func (r *c49Runner) run(p c49Plan) *c49Fail {
 		recs := cs.recs
 		cs.recs = nil
 		cs.inject = 0
+		cs.answer, cs.answerKind = "", ""
 		trouble := cs.trouble
+		lastLocation := cs.lastLocation
 		s.mu.Unlock()
 		if f, ok := opErr.(*c49Fail); ok {
 			return f
@@ -1637,9 +1941,13 @@ func (r *c49Runner) run(p c49Plan) *c49Fail {
 		if len(trouble) > 0 {
 			return c49Trouble("fake CA: %s", strings.Join(trouble, "; "))
 		}
-		// every recorded request is verified; injected-badNonce attempts are
-		// verified like the others and then taken out of the sequence
-		ei := 0
+		// Invariant after every step: every request the CA received since
+		// the last step verifies - kid form under the key the CA has on file
+		// for that kid, jwk form under the embedded key, which must be the
+		// client's.  Attempts answered with badNonce or refused by the CA are
+		// verified like the others and then taken out of the sequence.
+		r.caseTag = answer + "|" + lastRoll
+		ei, refusals, lastStatus := 0, 0, 0
 		for _, rec := range recs {
 			if ei >= len(exp) {
 				return c49Trouble("%s: %d requests recorded, expected %d (harness model)", op.Name, len(recs), len(exp))
@@ -1655,8 +1963,23 @@ func (r *c49Runner) run(p c49Plan) *c49Fail {
 			if pu, err := url.Parse(e.url); err != nil || pu.Host != rec.host {
 				return c49Trouble("%s: Host %q does not match %q", op.Name, rec.host, e.url)
 			}
+			r.onFile = rec.onFile
+			if e.form == "kid" {
+				// resolved by the CA, not by the client; when the CA has no
+				// account for the kid presented, verifyJWS reports the kid
+				// mismatch (the client invented it) against the client's key
+				if e.key = rec.onFile; e.key == nil {
+					e.key = acct
+				}
+			}
 			if _, f := r.verifyJWS(op.Name, rec.body, e, rec.outstanding, false); f != nil {
 				return f
+			}
+			if e.form == "kid" && rec.onFile == nil {
+				return c49Trouble("%s: the fake CA has no account for kid %q (harness model)", op.Name, e.kid)
+			}
+			if rec.caErr != "" {
+				return c49Trouble("%s: the fake CA refused (%s) a request the oracle accepts", op.Name, rec.caErr)
 			}
 			if r.capture != nil {
 				*r.capture = append([]byte{}, rec.body...)
@@ -1666,39 +1989,85 @@ func (r *c49Runner) run(p c49Plan) *c49Fail {
 			}
 			r.c.Class("url:" + c49Suffixes[c49SuffixOf(e.url)].class)
 			r.c.Class(fmt.Sprintf("nonce:len=%d", p.NonceLen))
+			lastStatus = rec.status
 			if rec.injected {
 				r.c.Class("retry:after-badNonce")
 				continue
 			}
+			if rec.refused != 0 {
+				refusals++
+				continue
+			}
 			ei++
 		}
-		if opErr != nil {
-			if c49IsTransport(opErr) {
-				return c49Trouble("%s: transport/timeout: %v", op.Name, opErr)
-			}
-			if ei < len(exp) {
-				return c49Violation("Client.%s with a %s key (signer %s) returned %q without sending the signed request for %s", op.Name, acct.name, acct.kind, opErr, exp[ei].url)
-			}
-			if errors.Is(opErr, acme.ErrAccountAlreadyExists) {
-				opErr = nil
-			} else {
-				return c49Trouble("%s: unexpected error after all requests were sent: %v", op.Name, opErr)
-			}
+		if opErr != nil && c49IsTransport(opErr) {
+			return c49Trouble("%s: transport/timeout: %v", op.Name, opErr)
 		}
-		if ei != len(exp) {
-			return c49Trouble("%s: %d of %d expected requests seen without an error (harness model)", op.Name, ei, len(exp))
+		accepted := false
+		if refusedPlan {
+			// the CA's final answer was a refusal: the operation must fail,
+			// nothing at the CA changed
+			if refusals == 0 {
+				if opErr != nil && ei < len(exp) {
+					return c49Violation("Client.%s with a %s key (signer %s) returned %q without sending the signed request for %s", op.Name, acct.name, acct.kind, opErr, exp[ei].url)
+				}
+				return c49Trouble("%s: the planned refusal %s never happened (harness model)", op.Name, answer)
+			}
+			if ei != mainIdx {
+				return c49Trouble("%s: refused at request #%d, harness model expected #%d", op.Name, ei, mainIdx)
+			}
+			if opErr == nil {
+				return c49Violation("the CA refused the %s request of Client.%s with status %s (%d attempt(s), nothing changed at the CA) but the call returned nil", exp[mainIdx].kind, op.Name, answer, refusals)
+			}
+			var ae *acme.Error
+			if errors.As(opErr, &ae) && fmt.Sprint(ae.StatusCode) == answer {
+				r.c.Class("refused:error-is-acme.Error-with-status")
+			}
+		} else {
+			if refusals > 0 {
+				return c49Trouble("%s: the fake CA refused a request (status %d) outside the plan: %v", op.Name, lastStatus, opErr)
+			}
+			if opErr != nil {
+				switch {
+				case ei < len(exp):
+					return c49Violation("Client.%s with a %s key (signer %s) returned %q without sending the signed request for %s", op.Name, acct.name, acct.kind, opErr, exp[ei].url)
+				case isRegister && lastStatus == http.StatusOK && errors.Is(opErr, acme.ErrAccountAlreadyExists):
+					r.c.Class("register:account-exists")
+				case op.Name == "AccountKeyRollover" || op.Name == "DeactivateReg" || op.Name == "RevokeCert" || op.Name == "RevokeCertWithCertKey":
+					return c49Violation("the CA accepted the %s request of Client.%s (status %d) but the call returned %q", exp[len(exp)-1].kind, op.Name, lastStatus, opErr)
+				default:
+					return c49Trouble("%s: unexpected error after all requests were sent: %v", op.Name, opErr)
+				}
+			}
+			if ei != len(exp) {
+				return c49Trouble("%s: %d of %d expected requests seen without an error (harness model)", op.Name, ei, len(exp))
+			}
+			accepted = true
 		}
-		if op.Name == "Register" || op.Name == "RegisterEAB" {
-			kid = cs.acctURL // Register adopts the Location the CA returned
+		r.c.Class("answer:" + op.Name + ":" + answer)
+		if isRegister && accepted {
+			kid = lastLocation // Register adopts the Location the CA returned
 			kidKnown = true
 			if string(cl.KID) != kid {
 				return c49Trouble("after Register Client.KID = %q, fake CA said %q", cl.KID, kid)
+			}
+		}
+		if op.Name == "AccountKeyRollover" {
+			rolls++
+			if accepted {
+				lastRoll = "accepted"
+			} else {
+				lastRoll = "refused-" + answer
 			}
 		}
 		if p.KidMode == "preset-wild" && kid == p.Kid {
 			r.c.Class("kid:wild")
 		}
 	}
+	if rolls > 0 {
+		r.c.Class(fmt.Sprintf("history:rollovers=%d", min(rolls, 4)))
+	}
+	r.caseTag, r.onFile = "", nil
 	return nil
 }
 
@@ -1751,7 +2120,7 @@ func c49OpenSSL(c *ev.Collector, dir string, k *c49Key, m *refcbyte.JOSEMessage,
 // ---------------------------------------------------------------------------
 
 func TestC49(t *testing.T) {
-	c := ev.New("C49", "non-trivial: the JWS involves an EC coordinate or signature half with leading zero octet(s), a crypto.Signer that is not *rsa/*ecdsa.PrivateKey, an external-account-binding MAC or the key-rollover inner JWS; distinct = (operation, key, signer kind, jwk-vs-kid, leading-zero class of R/S and X/Y, payload class)")
+	c := ev.New("C49", "non-trivial: the JWS involves an EC coordinate or signature half with leading zero octet(s), a crypto.Signer that is not *rsa/*ecdsa.PrivateKey, an external-account-binding MAC, the key-rollover inner JWS, an operation the CA did not simply accept (400/403/409/500, delayed, badNonce first) or a request after a key rollover (accepted or refused), verified under the key the CA has on file; distinct = (operation, key, signer kind, jwk-vs-kid, leading-zero class of R/S and X/Y, payload class, CA answer, outcome of the last rollover)")
 	defer c.Flush(t)
 	c.Oracle("refcbyte JOSE verifier (RFC 7515/7518/7638 on the Go standard library; KATs RFC 7515 A.1-A.4, RFC 7638 3.1)")
 	if err := refcbyte.JOSESelfTest(); err != nil {
@@ -1826,12 +2195,13 @@ func TestC49(t *testing.T) {
 		}
 	}
 	n := 0
-	burst := ev.Scale(6, 60)
+	burst := ev.Scale(3, 60)
 	for i, s := range specs {
 		if !ev.Mine(i) {
 			continue
 		}
 		next := specs[(i+5)%len(specs)]
+		next2 := specs[(i+31)%len(specs)]
 		p := c49Plan{Key: s, KidMode: "register", KidSuffix: i, DirSuffix: i + 3, DirNonce: i%2 == 0, Terms: i%3 == 0, NonceSeed: uint64(i) + ev.Seed(), NonceLen: []int{22, 43, 1, 128}[i%4]}
 		eabKey := make([]byte, []int{1, 32, 64, 65, 100}[i%5])
 		for j := range eabKey {
@@ -1846,16 +2216,23 @@ func TestC49(t *testing.T) {
 		}
 		p.Ops = append(p.Ops,
 			c49Op{Name: "RevokeCertWithCertKey", Blob: []byte{0x30, 0x03, 0x02, 0x01, byte(i)}, Reason: i % 11, Key: &next},
-			c49Op{Name: "AccountKeyRollover", Key: &next},
+			// rollovers the CA refuses (the key on file stays), then accepts
+			c49Op{Name: "AccountKeyRollover", Key: &next, Answer: "409"},
 			c49Op{Name: "GetOrder", Suffix: i + 1},
-			c49Op{Name: "DeactivateReg"},
+			c49Op{Name: "AccountKeyRollover", Key: &next2, Answer: []string{"400", "403", "500"}[i%3]},
+			c49Op{Name: "UpdateReg", Contacts: []string{"mailto:b@example.org"}},
+			c49Op{Name: "AccountKeyRollover", Key: &next},
+			c49Op{Name: "GetOrder", Suffix: i + 2},
+			c49Op{Name: "AccountKeyRollover", Key: &next2, Answer: []string{"delay-ok", "badnonce-ok"}[i%2], DelayMS: 3 + i%15},
+			c49Op{Name: "AuthorizeOrder", Names: []string{"example.net"}},
+			c49Op{Name: "DeactivateReg", Answer: []string{"", "403", "", "500"}[i%4]},
 		)
 		if f := r.run(p); f != nil {
 			fail(f, nil)
 		}
 		n++
 	}
-	c.Exhaustive("key shape x signer kind (directed scenario: EAB register, order, POST-as-GET burst, revoke with cert key, key rollover)", n)
+	c.Exhaustive("key shape x signer kind (directed scenario: EAB register, order, POST-as-GET burst, revoke with cert key, key rollovers refused with 409 and 400/403/500 then accepted, each followed by kid-form requests)", n)
 
 	// optional: openssl as a second verifier on a handful of signing inputs
 	if k, _ := ev.Shard(); k == 0 {
